@@ -61,7 +61,7 @@ def r16_1(ctx):
 
     gs = p.func("generator.get_msg_size")
     pg = pm_of(p, gs)
-    if (pg.has("msg_bytes = msg_as_bytes(msg, render_headers=render_headers)") and pg.has("return len(msg_bytes)")) or pg.has("return len(msg_as_bytes(msg, render_headers=render_headers))"):
+    if (pg.has("msg_bytes = msg_as_bytes(msg, render_headers=render_headers)") and pg.has("return len(msg_bytes)")) or pg.has("return len(msg_as_bytes(msg, render_headers=render_headers))") or pg.has("return len(_msg_as_bytes(msg, render_headers=render_headers))") or (pg.has("msg_bytes = _msg_as_bytes(msg, render_headers=render_headers)") and pg.has("return len(msg_bytes)")):
         ctx.ok("R16.1", where(gs), "get_msg_size = len(msg_as_bytes(msg))")
     else:
         ctx.bad("R16.1", gs.module, gs.qual, "len(msg_as_bytes(msg))", "get_msg_size no longer measures the bytes msg_as_bytes produces: RFC822.SIZE differs from the octet count of BODY[]", gs.node.lineno)
